@@ -42,6 +42,20 @@ CHECKS = {
         'Trusts the StepLoop (FIFO execution of asyncio ready handles, external requests injected between two callbacks; OS-thread races out of scope) and the public observers. Lifecycle hooks do not raise (C03).',
         'DESIGN.md section 3 C06',
     ),
+    'C03': (
+        'fault_enumeration',
+        'fault injection driven by property-based generation: complete enumeration of (hook / step function / callback / listener notification, occurrence, before|after super()) fault points per scenario, one injected fault per run, per-fault-class oracle',
+        'For 8 catalogue scenarios (plain, pause/play, pause before start, kill while waiting, kill before start, async with outputs and callbacks, async with pause and kill, Kill command) every fault point counted by a fault-free dry run is executed once with the fault injected: construction-time hooks must propagate from the constructor; pause/play hook faults must reach the requester and leave the process controllable; listener faults and late callbacks must change nothing; every other fault must end EXCEPTED with exactly the injected exception on exception() and future(), closed, stepping task done, nothing escaped to the loop. Hypothesis adds generated scenarios with a drawn fault point.',
+        'One injected fault per run and no other failure in it. The injector is an override in the generated class that calls super(); faults are plain Exception subclasses. Known finding KF-C03-1 (fault after close()) is excluded by signature and counted in the evidence.',
+        'DESIGN.md section 3 C03',
+    ),
+    'C13': (
+        'exploration',
+        'property-based testing against a reference interpreter of the step commands, with a pickled-checkpoint restore at every state entry (metamorphic: restored continuation = suffix of the uninterrupted run)',
+        'Generated chains of <=6 steps over all commands (Continue with positional and keyword arguments, Wait with and without resume value, plain value, Stop, UnsuccessfulResult, Kill(msg), raise); the executed (step, args, kwargs) sequence and the final state/result/successful/killed_msg must equal the reference interpreter, for the uninterrupted run and for a continuation from every checkpoint.',
+        'Arguments are plain picklable values; checkpoints are taken at state entries and each restore uses a fresh deserialisation in a fresh event loop.',
+        'DESIGN.md section 3 C13',
+    ),
 }
 
 PENDING = {f'C{n:02d}': 'check not built yet in this round (see DESIGN.md section 9 for the build order)' for n in range(1, 21)}
